@@ -324,9 +324,45 @@ fn oracle(c: &Case) -> Outcome {
     Outcome::pass_with(exp.eq_in_value || n_kinds >= 3, classes)
 }
 
+/// Fuzz entry (parse side, totality + re-encode stability): the bytes are TXT strings separated
+/// by newlines; they are offered to `from_txt_lookup` under a valid lookup name.  Whatever
+/// parses must be inspectable and must survive a publish/resolve round trip unchanged.
+pub fn fuzz_txt(data: &[u8]) -> Outcome {
+    use iroh_dns::endpoint_info::EndpointInfo;
+    let Ok(text) = std::str::from_utf8(data) else { return Outcome::pass(false) };
+    let id = iroh_base::SecretKey::from_bytes(&[9u8; 32]).public();
+    let name = format!("_iroh.{}.dns.example.", id.to_z32());
+    let lines: Vec<&str> = text.split('\n').collect();
+    match EndpointInfo::from_txt_lookup(name.clone(), lines.iter()) {
+        Err(e) => { let _ = format!("{e} {e:?}"); Outcome::pass(false) }
+        Ok(info) => {
+            let _ = format!("{info:?}");
+            check!(info.endpoint_id == id, "C31:wrong-id", "from_txt_lookup yields another endpoint id");
+            // re-publish what was resolved and resolve again: must be a fixed point
+            let strings = info.to_txt_strings();
+            match EndpointInfo::from_txt_lookup(name, strings.iter()) {
+                Ok(again) => {
+                    check!(again == info, "C31:republish-changes-info", "resolved info {info:?} re-published and resolved again gives {again:?}");
+                    Outcome::pass(true)
+                }
+                Err(e) => Outcome::violation("C31:republish-rejected", format!("own TXT strings {strings:?} rejected: {e:?}")),
+            }
+        }
+    }
+}
+
+pub fn fuzz_txt_seeds() -> Vec<Vec<u8>> {
+    vec![
+        b"relay=https://relay.example./?a=b\naddr=1.2.3.4:5 [::1]:7\nuser-data=x=y=z".to_vec(),
+        b"addr=10.0.0.1:1\naddr=10.0.0.2:2".to_vec(),
+        b"user-data=\nrelay=http://r.example:80/p".to_vec(),
+    ]
+}
+
 pub fn run(ctx: &Ctx) {
     ctx.rule("cases: endpoint id from a generated secret key; 0-8 addresses over {relay URL from a grammar (http/https/wss, host name / IPv4 / [IPv6], port, path with percent escapes and '=', query with '=' and '&', fragment), IPv4 socket address, IPv6 socket address (flow info and scope id 0; mapped/compatible/special forms), custom address (id over u64, 0-64 payload bytes)}; user data none / empty / up to 245 bytes over ASCII, '=', quotes, controls, multi-byte and arbitrary chars, dense at the limit; TTL; origin of the lookup name; non-trivial = some record value contains '=' or the info has >= 3 address kinds");
     ctx.assume("relay URL candidates that the url crate rejects are dropped from the case; values none of whose routes encode (record > 255 bytes and packet > 1000 bytes) are excluded, not passed");
     let k = ctx.tier.pick(1, 10);
     ctx.explore("roundtrip", ExploreOpts::new(60_000 * k), case_strategy, oracle);
+    ctx.fuzz_campaign("c31_txt", ctx.tier.pick(0, 1_500_000), 400, fuzz_txt_seeds(), &fuzz_txt);
 }
